@@ -52,7 +52,7 @@ func isSortCall(cc *ssa.CallCommon, eff *effects) bool {
 		eachInstr(sc, func(b *ssa.BasicBlock, in ssa.Instruction) {
 			if ci, ok := in.(ssa.CallInstruction); ok && ci.Common().StaticCallee() != sc {
 				c2 := ci.Common()
-				if len(c2.Args) > 0 && c2.Args[0] == sc.Params[0] && isSortCallShallow(c2) {
+				if len(c2.Args) > 0 && isParamOrSpill(stripIface(c2.Args[0]), sc.Params[0]) && isSortCallShallow(c2) {
 					sorts = append(sorts, b)
 				}
 			}
@@ -83,7 +83,7 @@ func guardedByEmpty(b *ssa.BasicBlock, param ssa.Value) bool {
 	for _, f := range factsAt(b) {
 		if bo, ok := f.Cond.(*ssa.BinOp); ok && bo.Op == token.EQL && f.True {
 			if call, ok := bo.X.(*ssa.Call); ok {
-				if bi, ok := call.Call.Value.(*ssa.Builtin); ok && bi.Name() == "len" && call.Call.Args[0] == param {
+				if bi, ok := call.Call.Value.(*ssa.Builtin); ok && bi.Name() == "len" && (call.Call.Args[0] == param || isParamOrSpillV(call.Call.Args[0], param)) {
 					if k, ok := constInt(bo.Y); ok && k == 0 {
 						return true
 					}
@@ -164,7 +164,40 @@ func classifyOne(p *Prog, eff *effects, mr *mapRange) {
 	}
 	// perKey: v denotes per-iteration data
 	var perKey func(v ssa.Value) bool
+	var isKeyFn func(v ssa.Value) bool
 	perKey = func(v ssa.Value) bool {
+		// the element another map holds under the range key (populated with one object per key)
+		switch x := v.(type) {
+		case *ssa.Lookup:
+			if isKeyFn != nil && isKeyFn(x.Index) {
+				return true
+			}
+		case *ssa.Extract:
+			if lk, ok := x.Tuple.(*ssa.Lookup); ok && isKeyFn != nil && isKeyFn(lk.Index) {
+				return true
+			}
+		case *ssa.FieldAddr:
+			if perKey(x.X) {
+				return true
+			}
+		case *ssa.UnOp:
+			if x.Op == token.MUL {
+				if al, ok := x.X.(*ssa.Alloc); ok && !allocIsObject(al) {
+					all, any := true, false
+					for _, r := range *al.Referrers() {
+						if st, ok := r.(*ssa.Store); ok && st.Addr == al {
+							any = true
+							if !perKey(st.Val) {
+								all = false
+							}
+						}
+					}
+					if any && all {
+						return true
+					}
+				}
+			}
+		}
 		for _, r := range rootsOf(v) {
 			switch r.Kind {
 			case rkRange:
@@ -209,8 +242,27 @@ func classifyOne(p *Prog, eff *effects, mr *mapRange) {
 			}
 			break
 		}
-		return keyV != nil && v == keyV
+		if keyV != nil && v == keyV {
+			return true
+		}
+		// the key copied into a local variable
+		if la := loadAddr(v); la != nil && keyV != nil {
+			if al, ok := la.(*ssa.Alloc); ok {
+				n, okk := 0, false
+				for _, r := range *al.Referrers() {
+					if st, ok := r.(*ssa.Store); ok && st.Addr == al {
+						n++
+						if st.Val == keyV {
+							okk = true
+						}
+					}
+				}
+				return okk && n == 1
+			}
+		}
+		return false
 	}
+	isKeyFn = isKey
 	isConstOrEmpty := func(v ssa.Value) bool {
 		if _, ok := v.(*ssa.Const); ok {
 			return true
@@ -323,6 +375,13 @@ func classifyOne(p *Prog, eff *effects, mr *mapRange) {
 					pattern("P2 per-key write")
 					continue
 				}
+				// the iteration variable itself, spilled to a slot (its address is taken or it predates per-iteration loop variables)
+				if al, ok := x.Addr.(*ssa.Alloc); ok {
+					if ex, isEx := x.Val.(*ssa.Extract); isEx && ex.Tuple == nx && loadsOnlyIn(al, lp) {
+						pattern("iteration variable")
+						continue
+					}
+				}
 				// slot accumulators (variables not lifted to registers)
 				if al, ok := x.Addr.(*ssa.Alloc); ok {
 					switch accKind(x.Val, al, 0) {
@@ -375,7 +434,11 @@ func classifyOne(p *Prog, eff *effects, mr *mapRange) {
 				if bi, ok := cc.Value.(*ssa.Builtin); ok {
 					switch bi.Name() {
 					case "delete":
-						pattern("P3 delete")
+						if hasEarlyExit(lp) && len(cc.Args) > 0 && cc.Args[0] == mr.Range.X {
+							reason(in.Pos(), "removes whichever element is visited first and then leaves the loop: which element goes depends on map order")
+						} else {
+							pattern("P3 delete")
+						}
 					case "copy":
 						if !perKey(cc.Args[0]) {
 							reason(in.Pos(), "copy into shared memory in visit order")
@@ -409,7 +472,7 @@ func classifyOne(p *Prog, eff *effects, mr *mapRange) {
 						continue
 					}
 					if cc.IsInvoke() {
-						impls := eff.implementations(cc)
+						impls := eff.implsAt(x)
 						if len(impls) > 0 {
 							okAll := true
 							for _, im := range impls {
@@ -432,7 +495,7 @@ func classifyOne(p *Prog, eff *effects, mr *mapRange) {
 						}
 					}
 					if !cc.IsInvoke() {
-						if cands := eff.funcValueTargets(cc.Value); len(cands) > 0 {
+						if cands := eff.fnTargetsAt(x); len(cands) > 0 {
 							okAll := true
 							for _, im := range cands {
 								s := eff.sums[im]
@@ -784,4 +847,52 @@ func mapOfSlicesSorted(fn *ssa.Function, mu *ssa.MapUpdate) bool {
 		}
 	}
 	return okAll && nRange > 0
+}
+
+func hasEarlyExit(lp *loopInfo) bool {
+	for b := range lp.Blocks {
+		if b == lp.Header {
+			continue
+		}
+		for _, s := range b.Succs {
+			if !lp.Blocks[s] {
+				return true
+			}
+		}
+		if _, ok := b.Instrs[len(b.Instrs)-1].(*ssa.Return); ok {
+			return true
+		}
+	}
+	return false
+}
+
+func stripIface(v ssa.Value) ssa.Value {
+	for {
+		if mi, ok := v.(*ssa.MakeInterface); ok {
+			v = mi.X
+			continue
+		}
+		return v
+	}
+}
+
+func isParamOrSpillV(v ssa.Value, param ssa.Value) bool {
+	if p, ok := param.(*ssa.Parameter); ok {
+		return isParamOrSpill(v, p)
+	}
+	return false
+}
+
+// loadsOnlyIn: every read of the slot happens inside the loop.
+func loadsOnlyIn(al *ssa.Alloc, lp *loopInfo) bool {
+	for _, r := range *al.Referrers() {
+		switch r.(type) {
+		case *ssa.Store, *ssa.DebugRef:
+			continue
+		}
+		if !lp.Blocks[r.Block()] {
+			return false
+		}
+	}
+	return true
 }
